@@ -1,1 +1,4 @@
 import OFProps.C16
+import OFProps.RecvLemmas
+import OFProps.RecvInv
+import OFProps.C01
